@@ -89,7 +89,90 @@ pub fn long_payloads(tier: Tier, alpha: &[u8]) -> Vec<Vec<u8>> {
             }
         }
     }
+    // LENGTH SWEEP: every payload length in a contiguous range (a defect keyed on one particular
+    // length, a multiple of some block size, or any 8-bit counter wrapping at a multiple of 256
+    // shows up somewhere in it), three fillers, two tails
+    let sweep_to = match tier {
+        Tier::Quick => 1100usize,
+        Tier::Thorough => 4200,
+    };
+    let mut lens: Vec<usize> = (10..=sweep_to).collect();
+    if tier == Tier::Thorough {
+        lens.extend(8150..=8250);
+        lens.extend(16380..=16390);
+        lens.extend(32760..=32775);
+        lens.extend(65500..=65580);
+    }
+    for l in lens {
+        for f in [0usize, 3, 4] {
+            v.push(filler(f, l));
+            let mut p = filler(f, l - 2);
+            p.extend_from_slice(&[0x00, 0x1b]);
+            v.push(p);
+        }
+    }
+    // ALL BYTE VALUES: every payload of length <= 2 over the full byte range, and every byte value
+    // at every position of three 8-byte backgrounds (a defect keyed on a byte value outside the
+    // five classes, e.g. a comparison turned into a range)
+    for a in 0..=255u8 {
+        v.push(vec![a]);
+        for b in 0..=255u8 {
+            v.push(vec![a, b]);
+        }
+    }
+    for bg in [0x55u8, 0x00, 0x1b] {
+        for pos in 0..8 {
+            for val in 0..=255u8 {
+                let mut p = vec![bg; 8];
+                p[pos] = val;
+                v.push(p);
+            }
+        }
+    }
+    if tier == Tier::Thorough {
+        for a in 0..=255u8 {
+            for b in 0..=255u8 {
+                for c in [0x00u8, 0x01, 0x1a, 0x1b, 0x1c, 0x03, 0x04, 0x7f, 0x80, 0xff] {
+                    v.push(vec![a, b, c]);
+                    v.push(vec![c, a, b]);
+                }
+            }
+        }
+    }
     v
+}
+
+/// Multi-frame streams: n frames (n = 1 ... max) of short payloads, with noise, a rejected frame
+/// and an in-frame restart sprinkled in at fixed periods - state that accumulates over
+/// transmissions (anything counting frames, errors or bytes across boundaries) has room to wrap.
+pub fn many_frames_stream(n: usize, variant: usize) -> (Vec<u8>, Vec<Vec<u8>>) {
+    let mut s = vec![];
+    let mut delivered = vec![];
+    for i in 0..n {
+        let p: Vec<u8> = match (i + variant) % 5 {
+            0 => vec![],
+            1 => vec![0x55, (i % 251) as u8],
+            2 => vec![0x00, 0x00, 0x1b],
+            3 => vec![0x1b, 0x1b, 0x1b, 0x1b, (i % 7) as u8],
+            _ => vec![(i % 256) as u8; (i % 9) + 1],
+        };
+        if variant > 0 && i % 7 == 3 {
+            s.extend_from_slice(&[0x55, 0x1b]); // noise
+        }
+        if variant > 1 && i % 11 == 5 {
+            let mut bad = canon(&[0x42]);
+            let l = bad.len();
+            bad[l - 1] ^= 0x40; // rejected frame
+            s.extend(bad);
+        }
+        if variant > 1 && i % 13 == 6 {
+            s.extend_from_slice(&crate::refm::START);
+            s.extend_from_slice(&[0x01, 0x02, 0x03]); // aborted by the next start sequence
+        }
+        s.extend(canon(&p));
+        delivered.push(p);
+    }
+    (s, delivered)
 }
 
 fn key_payload(p: &[u8]) -> String {
